@@ -220,125 +220,27 @@ def _ifexp_modes(e: ast.IfExp, idx: Optional[int]) -> Optional[Dict[str, str]]:
 
 
 def rule_rollback(ctx: Ctx, out: Collector) -> None:
-    """FS-2: the step that makes the key exist (creating the file) is rolled back when filling it fails."""
-    p = ctx.p
-    st = _store_class(ctx)
-    m = st.methods['save']
-    pm = parents(m.node)
-    dumps = [n for n in ast.walk(m.node) if isinstance(n, ast.Call) and isinstance(n.func, ast.Attribute) and n.func.attr == 'dump']
-    if not dumps:
-        raise AnalysisError('save(): no dump call found (FS-2 anchor vanished)')
-    cons = f'{m.module.name}::{m.qualname}::a failed dump removes the created file'
-    d = dumps[0]
-    ok = False
-    detail = 'the dump is not inside a try'
-    cur = d
-    while id(cur) in pm:
-        par = pm[id(cur)]
-        if isinstance(par, ast.Try) and cur in par.body:
-            for h in par.handlers:
-                names = ['<bare>'] if h.type is None else [(dotted(t) or '').split('.')[-1] for t in
-                                                             (h.type.elts if isinstance(h.type, ast.Tuple) else [h.type])]
-                removes = any(isinstance(x, ast.Call) and isinstance(x.func, ast.Attribute) and x.func.attr in ('unlink', 'remove', 'rmtree')
-                              for x in ast.walk(h))
-                reraises = any(isinstance(x, ast.Raise) for x in h.body)
-                if any(nm in ('<bare>', 'BaseException', 'Exception') for nm in names) and removes and reraises:
-                    ok = True
-                else:
-                    detail = f'handler {names}: removes file={removes}, re-raises={reraises}'
-        cur = par
-    # alternative: temp file + atomic rename
-    if any(isinstance(x, ast.Call) and isinstance(x.func, ast.Attribute) and x.func.attr in ('rename', 'replace') for x in ast.walk(m.node)):
-        ok = True
-    if ok:
-        out.ok('FS-2', cons, p.loc(m, d), 'try / except: unlink + re-raise (or temp file + rename)')
-    else:
-        out.bad('FS-2', cons, p.loc(m, d), f'save() creates the artifact file and then serialises into it without rollback ({detail}): when the '
-                                           f'serializer raises, an empty file remains - the key is not loadable and can never be saved again')
+    """FS-2: a save that fails while the value is being serialised leaves the key absent (and may be repeated), and leaves every
+    other key as it was.  Decided over the file-system worlds (fw.py): `save` interpreted with a serializer that raises."""
+    from .fw import report_laws
+    report_laws(ctx, out, 'FS-2', ['failed save'], 'a failed dump removes the created file',
+                'a save whose serializer raises does not leave the key absent - the key is not loadable and can never be saved again')
 
 
 def rule_exact_key(ctx: Ctx, out: Collector) -> None:
-    """FS-3: the node id is an exact key: it never reaches a glob / fnmatch pattern, and the look-up file
-    name is built exactly like the save file name.  FS-4: the existence test dominates the write and the
-    documented error classes are raised."""
-    p = ctx.p
-    st = _store_class(ctx)
-    problems = []
-    for m in st.methods.values():
-        for n in ast.walk(m.node):
-            if isinstance(n, ast.Call) and isinstance(n.func, ast.Attribute) and n.func.attr in ('glob', 'rglob', 'fnmatch', 'match', 'iglob'):
-                argtxt = ' '.join(unparse(a) for a in n.args)
-                if 'node_id' in argtxt or any(isinstance(a, ast.JoinedStr) for a in n.args):
-                    problems.append((m, n, f'{m.name}: {unparse(n)[:70]}'))
-    cons = f'{st.module.name}::{st.name}::the node id never reaches a glob pattern'
-    if not problems:
-        out.ok('FS-3', cons, p.loc(st.module, st.node), 'no glob / fnmatch over the node id')
-    else:
-        m, n, txt = problems[0]
-        out.bad('FS-3', cons, p.loc(m, n), f'the node id is interpolated into a glob pattern ({txt}): ids that are prefixes of each other '
-                                           f'alias ("x" finds "x.y"), ids with glob metacharacters are never found again')
-    # same file-name template in save and in the look-up
-    def templates(unit: FuncUnit, depth: int = 0) -> Set[str]:
-        out_ = set()
-        in_raise = set()
-        if depth < 3:
-            # file names built by helpers of the store count for the caller
-            for c in ast.walk(unit.node):
-                if isinstance(c, ast.Call) and isinstance(c.func, ast.Attribute) and isinstance(c.func.value, ast.Name) \
-                        and c.func.value.id in ('self', 'cls', st.name):
-                    h = st.methods.get(c.func.attr)
-                    if h is not None and h is not unit and h.name not in ('save', 'load', '__init__'):
-                        out_ |= templates(h, depth + 1)
-        for r in ast.walk(unit.node):
-            if isinstance(r, ast.Raise):
-                for x in ast.walk(r):
-                    in_raise.add(id(x))
-        for n in ast.walk(unit.node):
-            if isinstance(n, ast.JoinedStr) and 'node_id' in unparse(n) and id(n) not in in_raise:
-                out_.add(_normalise_template(n))
-        return out_
-    save_t = templates(st.methods['save'])
-    # the look-up: the helpers of the store that probe the file system for a node id
-    look = [m for m in st.methods.values() if m.name not in ('save', 'load', '__init__') and 'node_id' in [a.arg for a in m.node.args.args]
-            and any(isinstance(x, ast.Attribute) and x.attr in ('is_file', 'exists', 'glob', 'rglob', 'iterdir') for x in ast.walk(m.node))]
-    look_t = set()
-    for m in look:
-        look_t |= templates(m)
-    cons = f'{st.module.name}::{st.name}::look-up name == save name'
-    if save_t and look_t and save_t == look_t:
-        out.ok('FS-3', cons, p.loc(st.module, st.node), f'{sorted(save_t)}')
-    else:
-        out.bad('FS-3', cons, p.loc(st.module, st.node), f'save writes {sorted(save_t)} but the look-up searches {sorted(look_t)}: saved keys '
-                                                         f'are not found / foreign files are found')
-    # FS-4
-    for mname, errname, positive in (('save', 'ArtifactAlreadyExists', True), ('load', 'ArtifactDoesNotExist', False)):
-        m = st.methods[mname]
-        cons = f'{m.module.name}::{m.qualname}::existence test first, raising {errname}'
-        body = [s for s in m.node.body if not (isinstance(s, ast.Expr) and isinstance(s.value, ast.Constant))]
-        first_if = next((s for s in body if isinstance(s, ast.If)), None)
-        opens_before = False
-        ok = False
-        detail = 'no existence test'
-        if first_if is not None:
-            idx = body.index(first_if)
-            opens_before = any('open(' in unparse(s) for s in body[:idx])
-            rs = [x for x in ast.walk(first_if) if isinstance(x, ast.Raise) and isinstance(x.exc, ast.Call)]
-            if rs:
-                cname = (dotted(rs[0].exc.func) or '').split('.')[-1]
-                cls = next(iter(p.classes_by_name.get(cname, [])), None)
-                is_sub = cls is not None and any(isinstance(c, ClassInfo) and c.name == errname for c in p.mro(cls))
-                ttxt = unparse(first_if.test)
-                negated = ttxt.startswith('not ')
-                uses_lookup = any(lm.name in ttxt for lm in look) or any(
-                    isinstance(s, ast.Assign) and any(lm.name in unparse(s.value) for lm in look) for s in body[:idx])
-                if is_sub and uses_lookup and (negated != positive) and not opens_before:
-                    ok = True
-                detail = f'raises {cname} when `{ttxt}`'
-        if ok:
-            out.ok('FS-4', cons, p.loc(m, first_if), detail)
-        else:
-            out.bad('FS-4', cons, p.loc(m, m.node), f'{mname}() does not start with the existence test of exactly this key raising '
-                                                    f'{errname} ({detail}): a second save overwrites / a missing key is not reported')
+    """FS-3: the node id is an exact key - what is saved under a key is found under that key and under no other (ids that are
+    prefixes of each other, contain glob characters, a format suffix, or look like a hidden / scratch name of another id).
+    FS-4: the existence test comes first and raises the documented errors: a second save is refused and leaves the value, a key
+    never saved is reported absent.  Both decided over the file-system worlds (fw.py)."""
+    from .fw import report_laws
+    report_laws(ctx, out, 'FS-3', ['round trip'], 'look-up name == save name',
+                'what is saved under a key is not what is loaded under it')
+    report_laws(ctx, out, 'FS-3', ['no aliasing'], 'the node id never reaches a glob pattern',
+                'distinct keys alias each other (a key finds, blocks or destroys the artifact of another key)')
+    report_laws(ctx, out, 'FS-4', ['write once', 'shared directory'], 'save: existence test first, raising ArtifactAlreadyExists',
+                'a second save under an existing key is not refused with ArtifactAlreadyExists, or changes the stored value')
+    report_laws(ctx, out, 'FS-4', ['absent'], 'load: existence test first, raising ArtifactDoesNotExist',
+                'load of a key that was never saved does not raise ArtifactDoesNotExist')
 
 
 def _normalise_template(n: ast.JoinedStr) -> str:
@@ -494,35 +396,20 @@ def rule_saves(ctx: Ctx, out: Collector) -> None:
 
 
 def rule_format_from_name(ctx: Ctx, out: Collector) -> None:
-    """FS-7: the format of a found artifact is the part of the file name after the last dot - the inverse of the template
-    `<id>.<format>` the store writes.  pathlib's notion of a suffix is not that inverse: `.pickle` (node id '') has no suffix,
-    so a saved key could not be loaded."""
-    p = ctx.p
-    st = _store_class(ctx)
-    uses = []
-    n = 0
-    for m in st.methods.values():
-        for c in ast.walk(m.node):
-            if isinstance(c, ast.Call) and isinstance(c.func, ast.Attribute) and 'extension' in c.func.attr:
-                n += 1
-                for x in ast.walk(c):
-                    if isinstance(x, ast.Attribute) and x.attr in ('suffix', 'suffixes', 'stem'):
-                        uses.append((m, x))
-                # through a local
-                for a in c.args:
-                    if isinstance(a, ast.Name):
-                        for stt in ast.walk(m.node):
-                            if isinstance(stt, ast.Assign) and any(isinstance(t, ast.Name) and t.id == a.id for t in stt.targets):
-                                for x in ast.walk(stt.value):
-                                    if isinstance(x, ast.Attribute) and x.attr in ('suffix', 'suffixes', 'stem'):
-                                        uses.append((m, x))
-    if n == 0:
-        raise AnalysisError('the store never selects a serializer from a file name (FS-7 anchor vanished)')
+    """FS-7: the format of a found artifact is read off the file name the store wrote - also for ids for which pathlib's notion of
+    a suffix is not the inverse of the template (`.pickle` for the id '', ids with dots).  Decided over the file-system worlds: the
+    round trip of the keys '', 'a.b', 'a.pickle', '.X'."""
+    from .fw import decide_laws, _store
+    laws, counts, keys_, fmts = decide_laws(ctx)
+    st = _store(ctx)
+    dotted_keys = [k for k in keys_ if k == '' or '.' in k]
+    bad = sorted({x for x in laws['round trip'] if any(x.startswith(f'key {k!r},') for k in dotted_keys)})
     cons = f'{st.module.name}::{st.name}::the format of a found artifact is read off the file name, not off Path.suffix [format-from-name]'
-    if not uses:
-        out.ok('FS-7', cons, p.loc(st.module, st.node), f'{n} serializer selection(s)')
+    where = ctx.p.loc(st.module, st.node)
+    if not dotted_keys:
+        raise AnalysisError('file-system worlds without a dotted / empty key (FS-7 anchor vanished)')
+    if not bad:
+        out.ok('FS-7', cons, where, f'round trip of {dotted_keys} in every format')
     else:
-        m, x = uses[0]
-        out.bad('FS-7', cons, p.loc(m, x), f'`{unparse(x)}` is not the inverse of the file-name template `<id>.<format>`: for the node id \'\' '
-                f'the file is `.pickle`, which pathlib regards as a hidden file without suffix - the key is saved (a second save is '
-                f'refused) but load raises SerializerInitializationError')
+        out.bad('FS-7', cons, where, 'a key whose file name pathlib does not split like the template `<id>.<format>` is saved (a second save is '
+                'refused) but cannot be loaded: ' + '; '.join(bad[:3]))
